@@ -3,14 +3,17 @@ import itertools
 import wire
 from wire import mk_fmt, cells
 from props.common import reply_fmt, guarded, canon_cells, PALETTE
-from props.widthenv import ALPHA3, wc, env_fields, text_of, cut_layouts, self_check
+from props.widthenv import (ALPHA3, wc, env_fields, text_of, cut_layouts, self_check, realize, shared_variants,
+                            shared_case_fields, pool_size, pool_object, safe_oracle, safe_impl)
 import curtsies.formatstring as F
 
 PROP = "C10"
 MODULES = ["Curtsies.Properties.C10"]
 RULE = ("exhaustive: every string of length <=4 (quick and thorough; <=5 thorough) over {narrow 'a', wide U+FF25, combining "
         "U+0301} x every run layout (no runs, 1 run, every placement of 1 or 2 cuts incl. empty runs) x "
-        "{width, width_at_offset(n) for 0<=n<=len+1, width_aware_slice(a:b) for all 0<=a<=b<=W+2}; tie-only extras: "
+        "{width, width_at_offset(n) for 0<=n<=len+1, width_aware_slice(a:b) for all 0<=a<=b<=W+2}; the same three operations "
+        "on FmtStr values that share Chunk objects by identity (f*2, f*3, f+f, join with repeated item/separator, whole-run "
+        "slices concatenated; strings <=2) and on objects from random public-API programs (common.api_pool); tie-only extras: "
         "None/negative/reversed bounds, int indices, control characters (width -1), the module-level width_aware_slice and "
         "interval_overlap on all integer quadruples in [-1,4]^4, ChunkSplitter-free. non-trivial = distinct case whose "
         "string contains a wide or combining character, or that raises")
@@ -19,11 +22,11 @@ ASSUMPTIONS = ["the property is stated for column ranges 0 <= a <= b <= width+2 
                "zero-width characters occupy no column: the oracle requires them never to be invented or reordered and "
                "to keep their formatting, not where exactly a slice edge keeps or drops them"]
 
-LEVEL_NOTE = ("theorems are for EVERY wcwidth function with values 0/1/2 on the string (the library's own guard); the slice "
-              "theorem is the per-character column-interval relation SliceRel plus the width corollary (the flattened column "
-              "view of DESIGN is the harness oracle, not a separate Lean theorem). Trusted: Lean kernel + "
-              "propext/Classical.choice/Quot.sound, the hand-written model, the wire codec; cwcwidth is a parameter whose "
-              "values for the code points used are read live per run")
+LEVEL_NOTE = ("theorems are for EVERY wcwidth function with values 0/1/2 on the string (the library's own guard): width, "
+              "width_at_offset, the per-character column-interval relation SliceRel for width_aware_slice, its width corollary "
+              "and the flattened column view C10_cols. Trusted: Lean kernel + propext/Classical.choice/Quot.sound, the "
+              "hand-written model, the wire codec; cwcwidth is a parameter whose values for the code points used are read "
+              "live per run")
 
 # ------------------------------------------------------------------------------------------------ cases
 def mk_cases(ctx):
@@ -44,8 +47,35 @@ def mk_cases(ctx):
                         cases.append(dict(op="slice", f=ch, a=a, b=b))
     ctx.exhaustive.append("C10: %d strings (len<=%d over narrow/wide/combining) x all <=2-cut layouts x all 0<=a<=b<=W+2: %d cases"
                           % (nstr, maxlen, len(cases)))
-    # tie-only extras (outside the property's domain, inside the model's)
     r = ctx.rng
+    shared = []
+
+    def ops_for(fields, n, W):
+        shared.append(dict(op="width", **fields))
+        for k in range(n + 2):
+            shared.append(dict(op="widthat", n=k, **fields))
+        for a in range(W + 3):
+            for b in range(a, W + 3):
+                shared.append(dict(op="slice", a=a, b=b, **fields))
+    for n in range(4 if ctx.thorough else 3):
+        for tup in itertools.product(ALPHA3, repeat=n):
+            s = "".join(tup)
+            for ch in cut_layouts(s, PALETTE, max_cuts=1):
+                for spec in shared_variants(ch, other=[(s[:1], dict(PALETTE[4]))]):
+                    fields = shared_case_fields(spec)
+                    t = text_of(fields["f"])
+                    ops_for(fields, len(t), sum(wc(c) for c in t))
+    for _ in range(120 if ctx.thorough else 40):
+        seed = r.randrange(1 << 30)
+        for i in range(pool_size(seed)):
+            obj = pool_object(seed, i)
+            fields = dict(f=wire.fmt_chunks(obj), pool=[seed, i])
+            t = text_of(fields["f"])
+            if len(t) <= 8:
+                ops_for(fields, len(t), max(0, sum(max(wc(c), 0) for c in t)))
+    ctx.exhaustive.append("C10: %d cases on FmtStr values sharing Chunk objects by identity / built by API programs" % len(shared))
+    cases += shared
+    # tie-only extras (outside the property's domain, inside the model's)
     for a, b, x, y in itertools.product(range(-1, 5), repeat=4):
         extra.append(dict(op="overlap", a=a, b=b, x=x, y=y))
     alpha = list(ALPHA3) + ["b", " ", "\n", "\x01", "語"]
@@ -94,7 +124,7 @@ def run_impl(c):
         return F.interval_overlap(c["a"], c["b"], c["x"], c["y"])
     if op == "wasstr":
         return F.width_aware_slice(c["s"], c["a"], c["b"])
-    f = mk_fmt(c["f"])
+    f = realize(c)
     if op == "width":
         return f.width
     if op == "widthat":
@@ -106,7 +136,7 @@ def run_impl(c):
     raise KeyError(op)
 
 
-def impl(c):
+def _impl(c):
     def go():
         r = run_impl(c)
         if c["op"] in ("slice", "int"):
@@ -115,6 +145,9 @@ def impl(c):
             return "ok " + wire.enc_text(r)
         return "ok %d" % r
     return guarded(go)
+
+
+impl = safe_impl(_impl)
 
 
 def canon(reply):
@@ -160,7 +193,7 @@ def is_subsequence(xs, ys):
     return all(any(x == y for y in it) for x in xs)
 
 
-def oracle(c):
+def _oracle(c):
     op = c["op"]
     if op not in ("width", "widthat", "slice"):
         return None
@@ -197,6 +230,9 @@ def oracle(c):
     if not is_subsequence(zr, zf):
         return "slice invents or reorders zero-width characters: %r not a subsequence of %r" % (zr, zf)
     return None
+
+
+oracle = safe_oracle(_oracle)
 
 
 def footprint(c, what):
